@@ -139,7 +139,7 @@ func (g *gen) errorOut(name string, sig *types.Signature) (typ types.Type, err e
 	if res.Len() != 2 {
 		return nil, fmt.Errorf("%s, the function argument does not have two results, but has %d resulting parameters", name, res.Len())
 	}
-	if !derive.IsError(res.At(1).Type()) {
+	if !derive.IsErrorType(res.At(1).Type()) {
 		return nil, fmt.Errorf("%s, the function's second return parameter is not an error: %s", name, res.At(1).Type())
 	}
 	elemTyp := res.At(0).Type()
